@@ -747,3 +747,9 @@ Proof.
    (conj (SFEstrong_screw G b nu ySFM ySFP bp r Ls r0)
          (interfacialWeak_screw b Tf gamma r Ls r0 HT)))))))).
 Qed.
+
+(* ---- loading and reset(): every run starts from a distribution of total volume 1 ---------------------- *)
+Lemma load_reset_volume size raw psd' : momentFromN Rops size raw 3 <> 0 ->
+  momentFromN Rops size (g_psd (gload Rops size raw)) 3 = 1 /\
+  momentFromN Rops size (g_psd (greset Rops {| g_psd := psd'; g_backup := g_backup (gload Rops size raw) |})) 3 = 1.
+Proof. intros H. cbn. split; apply normalize_third_moment; exact H. Qed.
